@@ -194,3 +194,162 @@ Proof.
   apply (run_nested S cname Q r (KCart d) (tvc d) (fun ai x => map mk_out (emitted S d ai x)) eq_refl (wfc S d)
            (wfc_prefix S d) (combine1_cart S d Hd0) arr [] []); auto.
 Qed.
+
+(* ---------- the derived list is well-formed under primitive conditions (inner dot product) ---------- *)
+Lemma get_tag_same g : forall m, fold_left (fun out t => if Nat.ltb (String.length out) (String.length t) then t else out)
+                                   (repeat g m) g = g.
+Proof. induction m; simpl; auto. now rewrite Nat.ltb_irrefl. Qed.
+Lemma get_tag_repeat g m : 1 < String.length g -> get_tag_s (repeat g (Datatypes.S m)) = g.
+Proof.
+  intros H. unfold get_tag_s. simpl.
+  destruct (Nat.ltb_spec 1 (String.length g)); [apply get_tag_same|lia].
+Qed.
+
+Lemma map_const_repeat {A B} (f : A -> B) (b : B) : forall l, (forall y, In y l -> f y = b) -> map f l = repeat b (length l).
+Proof. induction l; simpl; intros H; auto. rewrite H, IHl; auto. Qed.
+
+Lemma gatag_combo cname g (l : list arv) :
+  l <> [] -> (forall y, In y l -> atag y = g) -> 1 < String.length g ->
+  gatag (cname, ESch (Flat.combo l)) = g.
+Proof.
+  intros Hne Hg Hlen. unfold gatag, Flat.combo, retag. simpl. rewrite !map_map. simpl.
+  rewrite (map_const_repeat atag g l Hg).
+  destruct l as [|y l]; [congruence|]. simpl length. rewrite (get_tag_repeat g _ Hlen).
+  rewrite (map_const_repeat (fun _ : string * tok => g) g (y :: l)) by auto. simpl length. now apply get_tag_repeat.
+Qed.
+
+Section DeriveWf.
+Variable S : list string.
+Variable cname : string.
+Variable Q : list string.
+Variable r : string.
+Let n := length S.
+
+Definition parents (l : list arv) : list arv := filter (fun x => negb (is_scatter S x)) l.
+Definition PH (arr : list arv) : Prop :=
+  NoDup (cname :: Q) /\ S <> [] /\
+  (forall x, In x arr -> is_scatter S x = false -> In (fst x) Q /\ atag x = r) /\
+  NoDup (map fst (parents arr)) /\
+  Flat.wf S (scattered S arr) /\
+  (forall x, In x arr -> is_scatter S x = true -> deepc r (atag x) /\ 1 < String.length (atag x)).
+
+Notation dv := (derive S cname (Flat.emission S)).
+
+(* what the derived list contains *)
+Lemma in_derive : forall rest ai e, In e (dv ai rest) ->
+  (exists x, In x rest /\ is_scatter S x = false /\ e = (fst x, ETok (snd x))) \/
+  (exists x l, In x rest /\ is_scatter S x = true /\ length l = n /\ (forall y, In y l -> atag y = atag x) /\
+               e = (cname, ESch (Flat.combo l))).
+Proof.
+  induction rest as [|x rest IH]; intros ai e H; simpl in H; [tauto|].
+  apply in_app_iff in H. destruct H as [H|H].
+  - unfold dstep in H. destruct (is_scatter S x) eqn:Sx.
+    + right. apply in_map_iff in H. destruct H as (s & <- & Hs). unfold Flat.emission in Hs.
+      destruct (Nat.eqb_spec (length (sel (atag x) (ai ++ [x]))) (length S)) as [En|En]; [|destruct Hs].
+      destruct Hs as [<-|[]]. exists x, (sel (atag x) (ai ++ [x])). repeat split; simpl; auto.
+      intros y Hy. apply sel_in in Hy. tauto.
+    + left. destruct H as [<-|[]]. exists x. simpl. auto.
+  - destruct (IH _ _ H) as [(y & Hy & A)|(y & l & Hy & A)]; [left; exists y|right; exists y, l]; simpl; tauto.
+Qed.
+
+Lemma parents_app a b : parents (a ++ b) = parents a ++ parents b.
+Proof. unfold parents. apply filter_app. Qed.
+
+Lemma derive_keys_nodup : forall rest ai,
+  NoDup (cname :: Q) -> S <> [] ->
+  (forall x, In x rest -> is_scatter S x = false -> In (fst x) Q /\ atag x = r) ->
+  NoDup (map fst (parents rest)) ->
+  Flat.wf S (ai ++ scattered S rest) ->
+  (forall x, In x rest -> is_scatter S x = true -> 1 < String.length (atag x)) ->
+  NoDup (map gakey (dv ai rest)).
+Proof.
+  induction rest as [|x rest IH]; intros ai NDn Sne Hq NDp W Hlen; simpl; [constructor|].
+  assert (Ncq : ~ In cname Q) by (inversion NDn; auto).
+  assert (Hq' : forall y, In y rest -> is_scatter S y = false -> In (fst y) Q /\ atag y = r)
+    by (intros; apply Hq; simpl; auto).
+  assert (Hlen' : forall y, In y rest -> is_scatter S y = true -> 1 < String.length (atag y))
+    by (intros; apply Hlen; simpl; auto).
+  rewrite map_app. unfold dstep. destruct (is_scatter S x) eqn:Sx.
+  - (* a scattered arrival: at most one combination, of a tag that cannot complete again *)
+    assert (W' : Flat.wf S ((ai ++ [x]) ++ scattered S rest)).
+    { unfold scattered in *. simpl in W. rewrite Sx in W. now rewrite <- app_assoc. }
+    assert (NDp' : NoDup (map fst (parents rest))).
+    { unfold parents in *. simpl in NDp. rewrite Sx in NDp. exact NDp. }
+    specialize (IH (ai ++ [x]) NDn Sne Hq' NDp' W' Hlen').
+    unfold Flat.emission. destruct (Nat.eqb_spec (length (sel (atag x) (ai ++ [x]))) (length S)) as [En|En]; [|exact IH].
+    simpl. constructor; auto. intros Hin.
+    assert (Eg : gatag (wrap cname (Flat.combo (sel (atag x) (ai ++ [x])))) = atag x).
+    { apply gatag_combo.
+      - intros E. rewrite E in En. simpl in En. destruct S; [congruence|discriminate].
+      - intros y Hy. apply sel_in in Hy. tauto.
+      - apply Hlen; simpl; auto. }
+    unfold gakey at 1 in Hin. rewrite Eg in Hin. simpl in Hin.
+    apply in_map_iff in Hin. destruct Hin as (e & Ee & He).
+    destruct (in_derive _ _ _ He) as [(y & Hy & Sy & ->)|(y & l & Hy & Sy & Ll & Hl & ->)].
+    + unfold gakey in Ee. simpl in Ee. inversion Ee as [[Ep Et]]. destruct (Hq' y Hy Sy) as [HyQ _].
+      apply Ncq. rewrite <- Ep. exact HyQ.
+    + assert (Ey : gatag (cname, ESch (Flat.combo l)) = atag y).
+      { apply gatag_combo; auto. intros E. rewrite E in Ll. simpl in Ll. unfold n in Ll. destruct S; [congruence|discriminate]. }
+      unfold gakey in Ee. rewrite Ey in Ee. simpl in Ee. inversion Ee as [Et].
+      (* y is a later scattered token with the tag that has just completed: one token too many *)
+      destruct W' as (NDi & Hports & NDk & _).
+      pose proof (sel_ports_nodup (atag x) _ NDk) as NDs.
+      assert (Incl : incl (map fst (sel (atag x) ((ai ++ [x]) ++ scattered S rest))) S).
+      { intros q Hq0. apply in_map_iff in Hq0. destruct Hq0 as (z & <- & Hz). apply sel_in in Hz. apply Hports. tauto. }
+      pose proof (NoDup_incl_length NDs Incl) as Le. rewrite map_length in Le.
+      unfold sel in Le. rewrite filter_app, app_length in Le. fold (sel (atag x) (ai ++ [x])) in Le. rewrite En in Le.
+      assert (In y (filter (fun z => String.eqb (atag z) (atag x)) (scattered S rest))).
+      { apply filter_In. split; [unfold scattered; apply filter_In; auto|]. rewrite Et. apply String.eqb_refl. }
+      destruct (filter (fun z => String.eqb (atag z) (atag x)) (scattered S rest)); [destruct H|]. simpl in Le. lia.
+  - (* a parent arrival *)
+    assert (W' : Flat.wf S (ai ++ scattered S rest)).
+    { unfold scattered in *. simpl in W. rewrite Sx in W. exact W. }
+    assert (NDp' : NoDup (map fst (parents rest)) /\ ~ In (fst x) (map fst (parents rest))).
+    { unfold parents in *. simpl in NDp. rewrite Sx in NDp. simpl in NDp. inversion NDp; subst. auto. }
+    destruct NDp' as [NDp' Nx]. specialize (IH ai NDn Sne Hq' NDp' W' Hlen').
+    simpl. constructor; auto. intros Hin. apply in_map_iff in Hin. destruct Hin as (e & Ee & He).
+    destruct (Hq x (or_introl eq_refl) Sx) as [HxQ Tx].
+    destruct (in_derive _ _ _ He) as [(y & Hy & Sy & ->)|(y & l & Hy & Sy & Ll & Hl & ->)].
+    + unfold gakey in Ee. simpl in Ee. inversion Ee as [[Ep Et]]. apply Nx. rewrite <- Ep.
+      apply in_map. unfold parents. apply filter_In. split; auto. now rewrite Sy.
+    + unfold gakey in Ee. simpl in Ee. inversion Ee as [[Ep Et]]. apply Ncq. rewrite Ep. exact HxQ.
+Qed.
+
+Theorem derive_wfb (arr : list arv) : PH arr -> wfb (names cname Q) r cname (dv [] arr).
+Proof.
+  intros (NDn & Sne & Hq & NDp & W & Hd).
+  assert (Gat : forall e, In e (dv [] arr) ->
+            (exists x, In x arr /\ is_scatter S x = false /\ e = (fst x, ETok (snd x)) /\ gatag e = r /\ In (fst e) Q) \/
+            (exists x, In x arr /\ is_scatter S x = true /\ fst e = cname /\ gatag e = atag x)).
+  { intros e He. destruct (in_derive _ _ _ He) as [(y & Hy & Sy & ->)|(y & l & Hy & Sy & Ll & Hl & ->)].
+    - left. exists y. destruct (Hq y Hy Sy) as [A B]. repeat split; auto.
+    - right. exists y. repeat split; auto. apply gatag_combo; auto.
+      + intros E. rewrite E in Ll. simpl in Ll. unfold n in Ll. destruct S; [congruence|discriminate].
+      + apply Hd; auto. }
+  assert (Ncq : ~ In cname Q) by (inversion NDn; auto).
+  split; [exact NDn|]. split; [simpl; auto|]. split; [|split; [|split]].
+  - intros e He. destruct (Gat e He) as [(y & _ & _ & _ & _ & HQ)|(y & _ & _ & Ec & _)].
+    + right. exact HQ.
+    + left. now rewrite Ec.
+  - apply derive_keys_nodup; auto. intros x Hx Sx. apply Hd; auto.
+  - intros e He. destruct (Gat e He) as [(y & _ & _ & -> & Et & HQ)|(y & Hy & Sy & Ec & Et)].
+    + simpl in *. destruct (String.eqb_spec (fst y) cname); [subst; tauto|exact Et].
+    + rewrite Ec, String.eqb_refl, Et. apply Hd; auto.
+  - intros e1 e2 H1 H2 P1 P2 Ne.
+    destruct (Gat e1 H1) as [(y1 & _ & _ & _ & _ & HQ1)|(y1 & Hy1 & S1 & _ & Et1)]; [rewrite P1 in HQ1; tauto|].
+    destruct (Gat e2 H2) as [(y2 & _ & _ & _ & _ & HQ2)|(y2 & Hy2 & S2 & _ & Et2)]; [rewrite P2 in HQ2; tauto|].
+    rewrite Et1, Et2 in *. destruct W as (_ & _ & _ & Hflat).
+    apply Hflat; auto; unfold scattered; apply filter_In; auto.
+Qed.
+End DeriveWf.
+
+(* the nested theorem for the inner dot product, from primitive hypotheses *)
+Theorem nested_dot_dot_primitive S cname Q r (arr : list arv) :
+  PH S cname Q r arr ->
+  run (tree S cname Q KDot) init_state arr = (nouts S cname Q r (Flat.emission S) [] [] arr, None).
+Proof.
+  intros H. pose proof H as (_ & _ & Hq & _ & W & _).
+  apply nested_dot_dot; auto.
+  - intros x Hx Sx. now apply Hq.
+  - now apply derive_wfb.
+Qed.
